@@ -523,7 +523,9 @@ func (p *Prog) modset(e *Engine, fn *ssa.Function) map[string]bool {
 				m[h] = true
 			}
 		}
-		if !c.ModAll {
+		// "opt frame=off": the frame is not checked against modifies, so it is not trusted either;
+		// callers havoc what the body (and its callees) may store to and rely on the ensures only
+		if !c.ModAll && c.Opts["frame"] != "off" {
 			return m
 		}
 	}
